@@ -139,6 +139,10 @@ impl MappedAddr for EndpointIdMappedAddr {
         addr[1..6].copy_from_slice(&ADDR_GLOBAL_ID);
         addr[6..8].copy_from_slice(&ENDPOINT_ID_SUBNET);
         rand::rng().fill_bytes(&mut addr[8..16]);
+        #[cfg(iroh_verif)]
+        iroh_base::verif::fill_bytes("mapped_addr.generate", &mut addr[8..16]);
+        #[cfg(iroh_verif)]
+        iroh_base::verif::pause("mapped_addr.generate");
 
         Self(Ipv6Addr::from(addr))
     }
@@ -200,6 +204,10 @@ impl MappedAddr for RelayMappedAddr {
         addr[1..6].copy_from_slice(&ADDR_GLOBAL_ID);
         addr[6..8].copy_from_slice(&RELAY_MAPPED_SUBNET);
         rand::rng().fill_bytes(&mut addr[8..16]);
+        #[cfg(iroh_verif)]
+        iroh_base::verif::fill_bytes("mapped_addr.generate", &mut addr[8..16]);
+        #[cfg(iroh_verif)]
+        iroh_base::verif::pause("mapped_addr.generate");
 
         Self(Ipv6Addr::from(addr))
     }
@@ -260,6 +268,10 @@ impl MappedAddr for CustomMappedAddr {
         addr[1..6].copy_from_slice(&ADDR_GLOBAL_ID);
         addr[6..8].copy_from_slice(&CUSTOM_MAPPED_SUBNET);
         rand::rng().fill_bytes(&mut addr[8..16]);
+        #[cfg(iroh_verif)]
+        iroh_base::verif::fill_bytes("mapped_addr.generate", &mut addr[8..16]);
+        #[cfg(iroh_verif)]
+        iroh_base::verif::pause("mapped_addr.generate");
 
         Self(Ipv6Addr::from(addr))
     }
@@ -371,6 +383,84 @@ impl<K, V> Default for AddrMapInner<K, V> {
         Self {
             addrs: Default::default(),
             lookup: Default::default(),
+        }
+    }
+}
+
+/// Verification wrappers for property C18 (compiled only with `--cfg iroh_verif`).
+#[cfg(iroh_verif)]
+#[allow(missing_docs, unreachable_pub, missing_debug_implementations, dead_code, clippy::unwrap_used)]
+pub(crate) mod verif_c18 {
+    use iroh_base::{CustomAddr, EndpointId, RelayUrl, TransportAddr};
+
+    use super::{super::remote_map, *};
+
+    /// Result of classifying a socket address with `MultipathMappedAddr::from`.
+    #[derive(Debug, Clone, Copy, PartialEq, Eq, PartialOrd, Ord, Hash)]
+    pub enum Kind {
+        Mixed,
+        Relay,
+        Custom,
+        Ip,
+    }
+
+    /// Classifies `addr`; also returns the socket address the classified value maps back to.
+    pub fn classify(addr: SocketAddr) -> (Kind, SocketAddr) {
+        match MultipathMappedAddr::from(addr) {
+            MultipathMappedAddr::Mixed(a) => (Kind::Mixed, a.private_socket_addr()),
+            MultipathMappedAddr::Relay(a) => (Kind::Relay, a.private_socket_addr()),
+            MultipathMappedAddr::Custom(a) => (Kind::Custom, a.private_socket_addr()),
+            MultipathMappedAddr::Ip(a) => (Kind::Ip, a),
+        }
+    }
+
+    /// The three address maps of a socket (the real `MappedAddrs`; clones share state).
+    #[derive(Debug, Clone, Default)]
+    pub struct Maps(remote_map::MappedAddrs);
+
+    impl Maps {
+        pub fn get_endpoint(&self, key: &EndpointId) -> SocketAddr {
+            self.0.endpoint_addrs.get(key).private_socket_addr()
+        }
+
+        pub fn get_relay(&self, key: &(RelayUrl, EndpointId)) -> SocketAddr {
+            self.0.relay_addrs.get(key).private_socket_addr()
+        }
+
+        pub fn get_custom(&self, key: &CustomAddr) -> SocketAddr {
+            self.0.custom_addrs.get(key).private_socket_addr()
+        }
+
+        /// `None`: `addr` is not an endpoint-id mapped address.
+        pub fn lookup_endpoint(&self, addr: SocketAddr) -> Option<Option<EndpointId>> {
+            match MultipathMappedAddr::from(addr) {
+                MultipathMappedAddr::Mixed(a) => Some(self.0.endpoint_addrs.lookup(&a)),
+                _ => None,
+            }
+        }
+
+        pub fn lookup_relay(&self, addr: SocketAddr) -> Option<Option<(RelayUrl, EndpointId)>> {
+            match MultipathMappedAddr::from(addr) {
+                MultipathMappedAddr::Relay(a) => Some(self.0.relay_addrs.lookup(&a)),
+                _ => None,
+            }
+        }
+
+        pub fn lookup_custom(&self, addr: SocketAddr) -> Option<Option<CustomAddr>> {
+            match MultipathMappedAddr::from(addr) {
+                MultipathMappedAddr::Custom(a) => Some(self.0.custom_addrs.lookup(&a)),
+                _ => None,
+            }
+        }
+
+        /// The real `remote_map::to_transport_addr`; the relay endpoint id is returned alongside.
+        pub fn to_transport_addr(&self, addr: SocketAddr) -> Option<(TransportAddr, Option<EndpointId>)> {
+            let addr = remote_map::to_transport_addr(addr, &self.0.relay_addrs, &self.0.custom_addrs)?;
+            let id = match &addr {
+                crate::socket::transports::Addr::Relay(_, id) => Some(*id),
+                _ => None,
+            };
+            Some((addr.into(), id))
         }
     }
 }
